@@ -27,4 +27,6 @@ for t, sizes in [("svg", [0, 8, 24, 48, 96, 160]), ("wasm", [0, 6, 20, 60, 150, 
     for i, sz in enumerate(sizes):
         for j in range(4):
             put(t, f"{t[0]}_{sz}_{j}", rnd(f"{t}{sz}{j}", sz) if j else bytes(sz))
-print("seed files written")
+for k in range(16):
+    put("build", f"st_{k}", bytes([9, k % 4, [0, 2, 11, 17, 30, 39][k % 6] * 6 + 3, k % 8, k % 4]) + rnd(f"st{k}", 6 * 4 + 40))
+print("seed files written")  # steered
